@@ -28,6 +28,9 @@ type pconn struct {
 	wrote    int
 	reads    int
 	onWDL    func()
+	pend     []byte   // node output not yet parsed into messages
+	pings    [][]byte // payloads of the "ping" messages the node sent, in order
+	sentCmds int
 }
 
 func newPconn() *pconn {
@@ -97,11 +100,31 @@ func (p *pconn) feed(data []byte, idle bool, eof bool, boom bool) {
 	}
 }
 
+// Write is called by the connection's writing thread. The byte stream is cut into
+// messages only to learn the nonces of the pings the node sends (a peer sees them too).
 func (p *pconn) Write(b []byte) (int, error) {
 	p.mu.Lock()
 	p.wrote += len(b)
+	p.pend = append(p.pend, b...)
+	for len(p.pend) >= 24 {
+		n := int(uint32(p.pend[16])|uint32(p.pend[17])<<8|uint32(p.pend[18])<<16|uint32(p.pend[19])<<24) & 0x7fffffff
+		if len(p.pend) < 24+n {
+			break
+		}
+		p.sentCmds++
+		if string(p.pend[4:8]) == "ping" && p.pend[8] == 0 {
+			p.pings = append(p.pings, append([]byte{}, p.pend[24:24+n]...))
+		}
+		p.pend = append(p.pend[:0:0], p.pend[24+n:]...)
+	}
 	p.mu.Unlock()
 	return len(b), nil
+}
+
+func (p *pconn) sentPings() [][]byte {
+	p.mu.Lock()
+	defer p.mu.Unlock()
+	return append([][]byte{}, p.pings...)
 }
 
 func (p *pconn) Close() error {
